@@ -176,7 +176,9 @@ def flip_cmp(src):
 
 class _InlineTemps(ast.NodeTransformer):
     """`t = <call-free expression>` immediately followed by a simple statement that reads `t` exactly once, `t` not
-    used anywhere else in the function: the temporary is inlined."""
+    used anywhere else in the function: the temporary is inlined.  With headers=True also into the iterable of a `for` and
+    the test of an `if` that directly follows."""
+    headers = False
 
     def _inline_in(self, fn):
         counts = {}
@@ -196,6 +198,15 @@ class _InlineTemps(ast.NodeTransformer):
             i = 0
             while i + 1 < len(body):
                 a, b = body[i], body[i + 1]
+                holder = None
+                if self.headers and isinstance(b, (ast.For, ast.If)):
+                    # the iterable of a `for` / the test of an `if` is evaluated once, first: a pseudo statement stands for it
+                    holder = b
+                    b = ast.Expr(value=b.iter if isinstance(b, ast.For) else b.test)
+                    rest = (holder.body + holder.orelse) + ([holder.target] if isinstance(holder, ast.For) else [])
+                    if isinstance(a, ast.Assign) and len(a.targets) == 1 and isinstance(a.targets[0], ast.Name) and any(
+                            isinstance(y, ast.Name) and y.id == a.targets[0].id for s in rest for y in ast.walk(s)):
+                        b, holder = body[i + 1], None       # used inside the block: not a header-only use
                 if isinstance(a, ast.Assign) and len(a.targets) == 1 and isinstance(a.targets[0], ast.Name) \
                         and isinstance(b, (ast.Assign, ast.Expr, ast.Return, ast.AugAssign)):
                     t = a.targets[0].id
@@ -227,7 +238,13 @@ class _InlineTemps(ast.NodeTransformer):
                                     if n.id == t and isinstance(n.ctx, ast.Load):
                                         return a.value
                                     return n
-                            body[i + 1] = R().visit(b)
+                            nb = R().visit(b)
+                            if holder is None:
+                                body[i + 1] = nb
+                            elif isinstance(holder, ast.For):
+                                holder.iter = nb.value
+                            else:
+                                holder.test = nb.value
                             del body[i]
                             continue
                 i += 1
